@@ -172,6 +172,7 @@ class _PopenState:
     spawned = 0
     polls = 0
     polls_at_last_spawn = 0
+    layer_order = []
 
 
 def reset_run_state():
@@ -183,6 +184,7 @@ def reset_run_state():
         st.spawned = 0
         st.polls = 0
         st.polls_at_last_spawn = 0
+        del st.layer_order[:]
 
 
 class _ModuleProxy:
@@ -219,7 +221,16 @@ def _make_popen(real_subprocess):
                 nth = st.spawned
             if fail_nth:
                 spec = fail_nth.split(':')
-                if str(nth) in spec[0].split(','):
+                hit = str(nth) in spec[0].split(',')
+                if spec[0].startswith('layer#'):
+                    # persistent: EVERY attempt to start a child for the
+                    # k-th distinct layer fails (retries included)
+                    with st.lock:
+                        if layer not in st.layer_order:
+                            st.layer_order.append(layer)
+                        hit = (st.layer_order.index(layer) + 1 ==
+                               int(spec[0][6:]))
+                if hit:
                     import errno
                     code = getattr(errno, spec[1] if len(spec) > 1
                                    else 'EAGAIN')
